@@ -14,6 +14,8 @@ import BexprGen.PegGrammar
 import BexprGen.PegActions
 import Bexpr.Peg.PinnedGrammar
 import Bexpr.Peg.PinnedActions
+import Bexpr.Peg.ErrorText
+import BexprGen.FailNames
 
 namespace Bexpr.Driver
 open Bexpr Bexpr.Go Bexpr.Peg Bexpr.Eval Bexpr.Wire
@@ -57,6 +59,18 @@ def parseLine (env : Env) (g : Grammar) (max : Nat) (input : GoString) : String 
   let out := Peg.run env g max input
   if out.accepted then s!"ok {out.cnt} {pvalToString out.val}"
   else s!"err {out.cnt} {String.intercalate "," (sortDedup (out.errs.map errToString))}"
+
+/-- matcher names and message wording as regenerated from `/repo/grammar/grammar.go` -/
+def goNames : Names :=
+  namesOf BexprGen.FailNames.goWants BexprGen.FailNames.anyWant BexprGen.FailNames.bang
+
+/-- `parsemsg <max> <hex>`: the exact `err.Error()` of `grammar.Parse("", input, MaxExpressions(max))`
+    (one tracked run per request) -/
+def parseMsgLine (nm : Names) (tx : MsgTexts) (env : Env) (g : Grammar) (max : Nat)
+    (input : GoString) : String :=
+  match Peg.errorText nm tx env g max input with
+  | none => "ok"
+  | some t => "err " ++ hx t
 
 /-- regexp table: pattern ↦ (compiles?, subject ↦ matched) -/
 abbrev ReTable := List (GoString × Bool × List (GoString × Bool))
@@ -204,6 +218,10 @@ def handle (line : String) : String :=
   | "parsepeg" :: max :: [h] =>
     match max.toNat?, hexAtom? h with
     | some m, some b => parseLine pegEnv pegGrammar m b
+    | _, _ => "bad"
+  | "parsemsg" :: max :: [h] =>
+    match max.toNat?, hexAtom? h with
+    | some m, some b => parseMsgLine goNames BexprGen.FailNames.texts goEnv goGrammar m b
     | _, _ => "bad"
   | "eval" :: rest =>
     -- a value of a NON-EMPTY interface type (fmt.Stringer, error …) is outside the modelled universe
